@@ -295,6 +295,22 @@ func c17GenData(rng *vk.Rand) *c17Data {
 			m[row] = vk.SortedU64(m[row])
 		}
 	}
+	// the filter row g=0 meets the lowest and the highest row of f in two shards, with different
+	// multiplicities, so that MinRow/MaxRow with a filter see the same extreme row in several shards
+	if rng.Chance(3, 4) {
+		for _, row := range []uint64{1, 5} {
+			p := rng.Perm(n)
+			for k, si := range p[:2] {
+				for m := 0; m <= k+rng.Intn(2); m++ {
+					c := d.Shards[si]*pilosa.ShardWidth + 200 + uint64(rng.Intn(30))
+					d.F[row] = append(d.F[row], c)
+					d.G[0] = append(d.G[0], c)
+				}
+			}
+			d.F[row] = vk.SortedU64(d.F[row])
+		}
+		d.G[0] = vk.SortedU64(d.G[0])
+	}
 	// int field: extreme values tied across shards with different multiplicities
 	lo, hi := int64(-50+rng.Intn(40)), int64(20+rng.Intn(40))
 	if rng.Chance(1, 5) {
@@ -731,6 +747,19 @@ func TestVerifC17Arrival(t *testing.T) {
 					continue
 				}
 				ref[q.kind] = got
+				if q.kind == "SumFiltered" {
+					// input class: some negative value lies outside the filter row
+					in := map[uint64]bool{}
+					for _, cc := range d.F[1] {
+						in[cc] = true
+					}
+					tieOf[q.kind] = "no-negative-value-outside-filter"
+					for cc, v := range d.V {
+						if v < 0 && !in[cc] {
+							tieOf[q.kind] = "negative-values-outside-filter"
+						}
+					}
+				}
 				if q.agg == "" {
 					continue
 				}
